@@ -6,7 +6,11 @@ LINEBUF = [('src/nunavut/jinja/__init__.py', 'CodeGenerator._generate_with_line_
            ('src/nunavut/jinja/__init__.py', '_rejoin_split_crlf'),
            ('src/nunavut/jinja/__init__.py', 'SupportGenerator._copy_header_using_line_pps'),
            ('src/nunavut/jinja/__init__.py', 'CodeGenerator._generate_code'),
-           ('src/nunavut/jinja/__init__.py', '_reset_line_pp')]
+           ('src/nunavut/jinja/__init__.py', '_reset_line_pp'),
+           ('src/nunavut/jinja/__init__.py', 'CodeGenerator._handle_post_processors'),
+           ('src/nunavut/jinja/__init__.py', 'CodeGenerator.__augment_post_processors_with_ln_limit_empty_lines'),
+           ('src/nunavut/jinja/__init__.py', 'CodeGenerator.__augment_post_processors_with_ln_trim_trailing_whitespace'),
+           ('src/nunavut/cli/runners.py', 'ArgparseRunner._build_post_processor_list_from_args')]
 
 
 def pin_linebuf():
